@@ -22,7 +22,30 @@ def quiet_logging():
     logging.disable(logging.CRITICAL)
 
 
+CLOSE_REASONS = {}     # why the library closed its connections, counted over the whole shard (observation only)
+
+
+def tap_connection_close():
+    """Count AIOKafkaConnection.close(reason) calls by reason (harness-side wrapper, nothing in the repository changes)."""
+    try:
+        from aiokafka import conn as _conn
+    except Exception:  # noqa: BLE001
+        return
+    if getattr(_conn.AIOKafkaConnection.close, "_vf_tapped", False):
+        return
+    orig = _conn.AIOKafkaConnection.close
+
+    def close(self, reason=None, exc=None):
+        if self._reader is not None:          # first close of a live connection
+            k = getattr(reason, "name", None) or str(reason)
+            CLOSE_REASONS[k] = CLOSE_REASONS.get(k, 0) + 1
+        return orig(self, reason=reason, exc=exc)
+    close._vf_tapped = True
+    _conn.AIOKafkaConnection.close = close
+
+
 def make_cluster(seed, n_brokers=3, versions=None, lat=(0.0005, 0.004), fragment=True):
+    tap_connection_close()
     net = SimNet(seed=seed, lat=lat, fragment=fragment)
     cl = SimCluster(net, seed=seed, n_brokers=n_brokers, versions=versions)
     return net, cl
@@ -101,3 +124,13 @@ def setup_codec(params, pure_python=False):
         extbuild.install_finder(params["ext_dir"])
         return "compiled(from working tree)"
     return "compiled(in-tree .so)"
+
+
+def idle_ms(P):
+    """connections_max_idle_ms of the clients of a history: the library default (9 min: never reached in a run) in three of
+    five histories, else short enough for idle connections to be dropped and re-opened inside the run.  Derived from
+    the history's seed unless the parameters name it (pinned witnesses do)."""
+    v = P.get("connections_max_idle_ms")
+    if v is not None:
+        return v
+    return [540000, 540000, 540000, 1200, 3000][(P.get("seed", 0) // 7) % 5]
